@@ -11,45 +11,77 @@ import z3
 from .program import Program
 from .state import Registry
 from .engine import Exec
-from .values import OutsideSubset
+from .values import OutsideSubset, AT_AXIOMS
 
 QUICK_TIMEOUT_MS = 10000
 THOROUGH_TIMEOUT_MS = 30000
 
 
 def _solve(job):
+    """z3 (in process) and cvc5 (subprocess) race on the same SMT-LIB text; the first definite answer wins."""
     name, idx, smt2, timeout_ms, use_cvc5 = job
     t0 = time.time()
     out = dict(name=name, idx=idx, status='unknown', backend='z3', model=None, solver_output='')
-    try:
-        ctx = z3.Context()
-        s = z3.Solver(ctx=ctx)
-        s.set('timeout', timeout_ms)
-        s.from_string(smt2)
-        r = s.check()
-        out['status'] = 'unsat' if r == z3.unsat else 'sat' if r == z3.sat else 'unknown'
-        if r == z3.sat:
-            out['model'] = str(s.model())[:6000]
-        elif r != z3.unsat:
-            out['solver_output'] = 'z3: %s' % s.reason_unknown()
-    except Exception as e:
-        out['solver_output'] = 'z3 error: %s' % e
-    if out['status'] == 'unknown' and use_cvc5:
+    proc, path, cvc5_answer = None, None, None
+    if use_cvc5:
         try:
             with tempfile.NamedTemporaryFile('w', suffix='.smt2', delete=False) as f:
                 f.write('(set-logic ALL)\n' + smt2 + '\n(check-sat)\n')
                 path = f.name
-            p = subprocess.run(['/usr/bin/cvc5', '--strings-exp', '--tlimit=%d' % timeout_ms, path], capture_output=True, text=True,
-                               timeout=timeout_ms / 1000.0 + 5)
-            os.unlink(path)
-            ans = p.stdout.strip().split('\n')[0] if p.stdout.strip() else ''
-            if ans in ('unsat', 'sat'):
-                out['status'] = ans
-                out['backend'] = 'cvc5'
-            else:
-                out['solver_output'] += ' | cvc5: %s %s' % (ans, p.stderr.strip()[:200])
+            proc = subprocess.Popen(['/usr/bin/cvc5', '--strings-exp', '--tlimit=%d' % timeout_ms, path], stdout=subprocess.PIPE,
+                                    stderr=subprocess.PIPE, text=True)
         except Exception as e:
-            out['solver_output'] += ' | cvc5 error: %s' % e
+            out['solver_output'] += 'cvc5 error: %s' % e
+    try:
+        ctx = z3.Context()
+        s = z3.Solver(ctx=ctx)
+        s.from_string(smt2)
+        # short z3 slices so that a fast cvc5 answer is not held up by a z3 timeout
+        deadline = time.time() + timeout_ms / 1000.0
+        slice_ms = 1500
+        while True:
+            s.set('timeout', int(min(slice_ms, max(100, (deadline - time.time()) * 1000))))
+            r = s.check()
+            if r != z3.unknown or time.time() >= deadline:
+                break
+            if proc is not None and proc.poll() is not None:
+                so, se = proc.communicate()
+                ans = so.strip().split('\n')[0] if so.strip() else ''
+                proc = None
+                if ans in ('unsat', 'sat'):
+                    cvc5_answer = ans
+                    break
+                out['solver_output'] += ' | cvc5: %s %s' % (ans, se.strip()[:200])
+            slice_ms = min(slice_ms * 3, timeout_ms)
+        out['status'] = 'unsat' if r == z3.unsat else 'sat' if r == z3.sat else 'unknown'
+        if out['status'] == 'unknown' and cvc5_answer:
+            out['status'], out['backend'] = cvc5_answer, 'cvc5'
+        if r == z3.sat:
+            out['model'] = str(s.model())[:6000]
+        elif r != z3.unsat:
+            out['solver_output'] = 'z3: %s' % s.reason_unknown() + out['solver_output']
+    except Exception as e:
+        out['solver_output'] = 'z3 error: %s' % e
+    if proc is not None:
+        if out['status'] == 'unknown':
+            try:
+                so, se = proc.communicate(timeout=max(1.0, timeout_ms / 1000.0 - (time.time() - t0) + 3))
+                ans = so.strip().split('\n')[0] if so.strip() else ''
+                if ans in ('unsat', 'sat'):
+                    out['status'] = ans
+                    out['backend'] = 'cvc5'
+                else:
+                    out['solver_output'] += ' | cvc5: %s %s' % (ans, se.strip()[:200])
+            except Exception as e:
+                proc.kill()
+                out['solver_output'] += ' | cvc5: %s' % type(e).__name__
+        else:
+            proc.kill()
+            proc.communicate()
+        try:
+            os.unlink(path)
+        except OSError:
+            pass
     out['time_s'] = time.time() - t0
     return out
 
@@ -99,14 +131,14 @@ def verify_modules(modnames, tier='quick', prop=None, only=None):
                                   loops_with_invariant=sorted(ct.loops), gen_s=round(time.time() - t0, 3)))
             # vacuity: the precondition (with type invariants and axioms) must be satisfiable
             for cname, hyps in ex.covers:
-                cover_jobs.append(('%s::cover[%s]' % (qual, cname), 0, to_smt2(list(ex.hyp_axioms) + hyps, z3.BoolVal(False)), 5000, False))
+                cover_jobs.append(('%s::cover[%s]' % (qual, cname), 0, to_smt2(list(ex.hyp_axioms) + list(AT_AXIOMS) + hyps, z3.BoolVal(False)), 5000, False))
             for name, o in obls.items():
                 obl_meta[name] = dict(name=name, function=qual, kind=o.kind, clause=o.label, clause_text=o.clause_text,
                                       nqueries=len(o.queries), smt2_sample=None)
                 for idx, (hyps, goal, where) in enumerate(o.queries):
                     if z3.is_true(goal):
                         continue
-                    smt2 = to_smt2(list(ex.hyp_axioms) + hyps, goal)
+                    smt2 = to_smt2(list(ex.hyp_axioms) + list(AT_AXIOMS) + hyps, goal)
                     if obl_meta[name]['smt2_sample'] is None:
                         obl_meta[name]['smt2_sample'] = smt2[-900:]
                     jobs.append((name, idx, smt2, timeout, True))
